@@ -246,7 +246,9 @@ def obligations(tier):
         yield ("selection", h_selection, {"shape": list(s)}, {"max_paths": 100000, "timeout_ms": 60000})
     for nd in (2, 3):
         for st in structures(nd):
-            for rot in ((0, 2) if tier == "quick" else range(7)):
+            # rotations 5 and 6 put the circular von Mises family (whose scipy cdf leaves [0, 1] outside the principal
+            # interval) in the conditional / the first position
+            for rot in (((0, 2, 5, 6) if nd == 2 else (0, 2)) if tier == "quick" else range(7)):
                 yield ("cellprob", h_cellprob, {"struct": skey(st), "rot": rot}, {})
     for ny in ((2,) if tier == "quick" else (2, 3)):
         for sd in (False, True):
